@@ -323,6 +323,10 @@ func (vc *VC) callValue(st *State, call *ast.CallExpr, fv *Value, sig *types.Sig
 			return vc.callFunc(st, call, fn.Decl, dsig, fn.Recv, rT, args)
 		}
 	}
+	if vc.contract != nil && vc.contract.PureCalls && vc.inlineDepth == 0 {
+		vc.assumptions["function-typed parameters of "+vc.fname+" are called without heap effects (purecalls)"] = true
+		return vc.havocResults(st, "fnval", sig)
+	}
 	// unknown function value: if it returns a single bool/int and takes scalars, model it as a pure
 	// (deterministic) uninterpreted function of its arguments; otherwise havoc.
 	if fv != nil && sig.Results().Len() == 1 && vc.scalarArgs(args) && shapeOf(sig.Results().At(0).Type()) != shStruct && shapeOf(sig.Results().At(0).Type()) != shSlice {
